@@ -89,7 +89,9 @@ def abbreviate_space_both(s):
 def parse_abbreviated_size(s):
     if s is None or s == "":
         return None
-    m = re.match(r"^(\d+)([KMGTPE]?[I]?[B]?)$", s.upper())
+    # docs/configuration.rst documents spellings such as "100 M", "1024 Ki"
+    # and "1048576 B": whitespace may separate the number from the suffix
+    m = re.match(r"^(\d+)\s*([KMGTPE]?[I]?[B]?)$", s.upper())
     if not m:
         raise ValueError("unparseable value %s" % s)
     number, suffix = m.groups()
